@@ -192,11 +192,10 @@ func (sr SendRepeater) Stop() {
 // SendRepeat will send the given message to the given PID each given interval.
 // It will return a SendRepeater struct that can stop the repeating message by calling Stop().
 func (e *Engine) SendRepeat(pid *PID, msg any, interval time.Duration) SendRepeater {
-	clonedPID := *pid.CloneVT()
 	sr := SendRepeater{
 		engine:   e,
 		self:     nil,
-		target:   &clonedPID,
+		target:   pid.CloneVT(),
 		interval: interval,
 		msg:      msg,
 		cancelch: make(chan struct{}, 1),
